@@ -102,6 +102,20 @@ def check(ctx):
         run.check(ok, 'R23', pr.where, pr.qualname, 'return map(self.get_output_row, storage.write(...))',
                   'rows do not continue downstream from the writer')
     run.floor('R23', n, 4, 'mode paths')
+    # the existence test looks at the database as it is when the resource is dumped: the Storage (which reflects the existing
+    # tables when it is constructed) is created in process_resource itself, not at construction time of the step
+    st_names = {pseudo(c.func.value) for c in ast.walk(pr.node) if isinstance(c, ast.Call) and isinstance(c.func, ast.Attribute)
+                and c.func.attr in ('delete', 'create', 'write', 'describe') and pseudo(c.func.value)
+                and 'storage' in pseudo(c.func.value).lower()}
+    okst = len(st_names) == 1
+    if okst:
+        sn = list(st_names)[0]
+        vals = [x.value for x in ast.walk(pr.node) if isinstance(x, ast.Assign) and pseudo(x.targets[0]) == sn]
+        okst = len(vals) == 1 and isinstance(vals[0], ast.Call) and \
+            (res.external_name(vals[0]) or '').endswith('Storage') and not sn.startswith('self.')
+    run.check(okst, 'R23', pr.where, pr.qualname, 'storage = Storage(engine, prefix=table) created when the resource is processed',
+              'the Storage whose table list decides delete / create was not created at dump time: a table created after the step '
+              'was constructed is not seen, rewrite mode then appends to it instead of replacing it')
     run.check(fallback_seen, 'R23', pr.where, pr.qualname, 'a path on which missing update_keys fall back to the primary key',
               'without explicit update_keys the primary key is not used (update mode would match rows on nothing)')
     body = u(pr.node)
